@@ -219,3 +219,20 @@ Proof.
     rewrite skipn_all.
     destruct f; cbn [write_all fst snd]; (split; [reflexivity|]); rewrite Hd, firstn_all; reflexivity.
 Qed.
+
+(** ... and leaves at least the remaining room. *)
+Lemma write_all_fits_space fuel b bs :
+  buf_ok b -> length bs <= avail_space b -> length bs <= fuel ->
+  avail_space b - length bs <= avail_space (fst (write_all fuel b bs)).
+Proof.
+  intros Hok Hfit Hfuel. destruct fuel as [|f].
+  - destruct bs; simpl in *; lia.
+  - destruct bs as [|x xs]; cbn [write_all].
+    { cbn [fst length]. lia. }
+    pose proof (fill_bytes_cnt b (x :: xs)) as Hn.
+    pose proof (fill_bytes_space b (x :: xs) Hok) as Hs.
+    destruct (fill_bytes b (x :: xs)) as [b' n] eqn:E; cbn [fst snd] in Hn, Hs.
+    rewrite Nat.min_l in Hn by exact Hfit. subst n.
+    destruct (length (x :: xs) =? 0) eqn:Z; [apply Nat.eqb_eq in Z; simpl in Z; lia|].
+    rewrite skipn_all. destruct f; cbn [write_all fst]; exact Hs.
+Qed.
